@@ -184,6 +184,9 @@ def run(tier, seed, replay=None):
     reader_common.wiring(ck, mod)
     reader_common.vector_raw(ck, mod)
     ck.replayers["reader."] = replay_reader
+    from checks import filelist_common
+    filelist_common.file_list_contract(ck, mod, ((1, 1000), (1, 500), (2, 1000), (3, 1000), (4, 2000)) if tier == "thorough" else ((1, 1000), (1, 500), (2, 1000)))
+    ck.replayers["filelist."] = replay_reader
     for nm in ("DigitalRFReader.read", "DigitalRFReader.get_continuous_blocks", "DigitalRFReader.read_vector_raw", "DigitalRFReader._get_file_list",
                "DigitalRFReader.get_bounds", "_top_level_dir_properties._get_bounds"):
         ck.add_function(pyload.source_info(mod, nm))
@@ -196,6 +199,6 @@ def run(tier, seed, replay=None):
                             r["cases"], r["failures"]))
     ck.trust({"h5py slicing / numpy": "assumed (rf_data[a:b] returns rows a..b-1; concatenate preserves order)", "sorted(dict.items())": "executed (CPython)"})
     ck.assumptions += ["every file satisfies the per-file index invariant (proved for the writer in C06)",
-                       "_get_file_list is covered by the bounded differential only (labelled bounded); read / get_continuous_blocks / read_vector_raw are verified against the contracts of their callees; get_bounds: file edges, directory scan and merge are under contract, list_drf.ilsdrf's ordering is assumed there (C14)"]
+                       "_get_file_list: contract checked for enumerated cadence pairs and queries of at most one subdirectory period (sample indices and rate symbolic), other cadences by the bounded differential; read / get_continuous_blocks / read_vector_raw are verified against the contracts of their callees; get_bounds: file edges, directory scan and merge are under contract, list_drf.ilsdrf's ordering is assumed there (C14)"]
     ck.extra["explanation"] = "row arithmetic of _read and the merge of _combine_blocks: path-complete symbolic execution of the real methods with symbolic index rows / block keys; whole-reader coherence: bounded differential against an exact model"
     return ck
